@@ -446,6 +446,31 @@ theorem C06_decode_chunking_irrelevant (sd : SD) (src₁ src₂ : Io.Src) (h₁ 
     viewS (Stk.decodeSrc sd src₁) = viewS (Stk.decodeSrc sd src₂) := by
   rw [C06_decode_over_any_chunking sd src₁ h₁, C06_decode_over_any_chunking sd src₂ h₂, hb, hf]
 
+/-- **Property C06, on the real reader stack.**  Several whole messages written back to back on one stream; a transport that
+    fragments the stream in any way whatever (guard: `Stack.Inv`) and ends it cleanly; ONE Decoder created on that transport.
+    Successive Decode calls return the messages one by one, in order and unaltered, each with the count of exactly its own
+    bytes; afterwards the Decoder holds nothing (no bytes to come, no lookahead), and one more Decode reports raw io.EOF. -/
+theorem C06_stream_over_any_chunking (ms : List Msg) (hw : ∀ m ∈ ms, m.Whole) (src : Io.Src) (hi : (Io.Stack.top src).Inv)
+    (hflat : src.flat = concatMsgs ms) (hfin : src.fin = .eof) :
+    (Stk.decodeStream (ms.map Msg.sd) ⟨Io.Stack.top src, 0⟩).1 = ms.map (fun m => (m.value, m.bytes.length)) ∧
+    (Stk.decodeStream (ms.map Msg.sd) ⟨Io.Stack.top src, 0⟩).2.1 = none ∧
+    (Stk.decodeStream (ms.map Msg.sd) ⟨Io.Stack.top src, 0⟩).2.2.s.content = [] ∧
+    (Stk.decodeStream (ms.map Msg.sd) ⟨Io.Stack.top src, 0⟩).2.2.last = 0 ∧
+    (∀ sd : SD, sd.descOk = true →
+      viewS (Stk.decStruct sd.tag sd (Stk.decodeStream (ms.map Msg.sd) ⟨Io.Stack.top src, 0⟩).2.2) = .err .eof) := by
+  have hsim : Stk.Sim ⟨concatMsgs ms ++ [], .eof, 0⟩ ⟨Io.Stack.top src, 0⟩ :=
+    ⟨by simp [Io.Stack.top, Io.Stack.content, hflat], by simp [Io.Stack.top, Io.Stack.fin, hfin], hi, by trivial, rfl⟩
+  obtain ⟨g1, g2, g3⟩ := Stk.stream_sim (ms.map Msg.sd) _ _ hsim
+  rw [C06_stream ms hw [] .eof] at g1 g2 g3
+  simp only at g1 g2 g3
+  refine ⟨g1.symm, g2.symm, g3.1.symm, g3.2.2.2.2.symm, ?_⟩
+  intro sd hd
+  rw [(C06_decode_step sd sd.tag _ _ g3).1]
+  have := C06_clean_eof sd hd
+  unfold decodeSD decodeTop at this
+  simp only [hd, if_true] at this
+  rw [this]; rfl
+
 /-- non-vacuity: a Protocol Version structure (two required integers) delivered in seven reads - single bytes, empty reads, a
     split inside a length field, the last bytes together with EOF, and three bytes of a following message - decodes through the
     real stack to the value, the count 40, and a Decoder standing at those three bytes -/
@@ -460,5 +485,56 @@ example : (Io.Stack.top exPVsrc).Inv := ⟨⟨by intro _; rfl, by decide⟩, by 
 
 set_option maxRecDepth 100000 in
 example : viewS (Stk.decodeSrc exPV exPVsrc) = .ok (.struct [.one (.int 1), .one (.int 4)], 40, [0x42, 0x00, 0x78], .eof, 0) := by rfl
+
+def pvBytes (a b : UInt8) : Bytes :=
+  [0x42, 0x00, 0x69, 0x01, 0, 0, 0, 0x20, 0x42, 0x00, 0x6A, 0x02, 0, 0, 0, 4, 0, 0, 0, a, 0, 0, 0, 0,
+   0x42, 0x00, 0x6B, 0x02, 0, 0, 0, 4, 0, 0, 0, b, 0, 0, 0, 0]
+
+/-- a message is whole if the stack decoder, fed the bytes in one read, decodes it and ends exactly at its end (through the
+    simulation and the decoder/spec equivalence of C04) -/
+theorem whole_of_stack_decode (sd : SD) (bs : Bytes) (v : Val) (n : Nat) (hd : sd.descOk = true)
+    (h : viewS (Stk.decStruct sd.tag sd ⟨Io.Stack.top ⟨[bs], .eof, false⟩, 0⟩) = .ok (v, n, [], .eof, 0)) :
+    (⟨sd, bs, v⟩ : Msg).Whole := by
+  refine ⟨hd, ?_⟩
+  have hrun : Io.maxEmptyRun [bs] < Io.maxConsecutiveEmptyReads := by
+    simp only [Io.maxEmptyRun, Io.leadEmpty, Io.maxConsecutiveEmptyReads]
+    split <;> simp
+  have hI : (Io.Stack.top ⟨[bs], .eof, false⟩).Inv := by
+    refine ⟨⟨?_, hrun⟩, by decide, ?_⟩
+    · intro h; cases h
+    · intro e h; cases h
+  have hsim : Stk.Sim ⟨bs, .eof, 0⟩ ⟨Io.Stack.top ⟨[bs], .eof, false⟩, 0⟩ :=
+    ⟨by simp [Io.Stack.top, Io.Stack.content, Io.Src.flat], rfl, hI, by trivial, rfl⟩
+  rw [(C06_decode_step sd sd.tag _ _ hsim).1] at h
+  cases hA : decStruct sd.tag sd ⟨bs, .eof, 0⟩ with
+  | err e => rw [hA] at h; simp [viewD] at h
+  | panic p => rw [hA] at h; simp [viewD] at h
+  | ok r =>
+    obtain ⟨v', n', d'⟩ := r
+    rw [hA] at h
+    simp only [viewD, Outcome.ok.injEq, Prod.mk.injEq] at h
+    obtain ⟨rfl, rfl, hw, _, _⟩ := h
+    obtain ⟨r', hs, hd', _⟩ := ((S_spec sd sd.tag).iff bs .eof v' n' d').mp hA
+    rw [hd'] at hw
+    simp only at hw
+    rw [hw] at hs
+    exact hs
+
+/-- non-vacuity of the stream theorem: two Protocol Version messages back to back, cut into reads of 1, 6, 0, 33, 3, 0, 37 bytes
+    with EOF attached to the last: every hypothesis of `C06_stream_over_any_chunking` holds -/
+def exMsgs : List Msg :=
+  [⟨exPV, pvBytes 1 4, .struct [.one (.int 1), .one (.int 4)]⟩, ⟨exPV, pvBytes 1 2, .struct [.one (.int 1), .one (.int 2)]⟩]
+
+def exStreamSrc : Io.Src :=
+  ⟨[(pvBytes 1 4).take 1, ((pvBytes 1 4).drop 1).take 6, [], (pvBytes 1 4).drop 7, (pvBytes 1 2).take 3, [], (pvBytes 1 2).drop 3], .eof, true⟩
+
+set_option maxRecDepth 100000 in
+example : (∀ m ∈ exMsgs, m.Whole) ∧ (Io.Stack.top exStreamSrc).Inv ∧ exStreamSrc.flat = concatMsgs exMsgs ∧ exStreamSrc.fin = .eof := by
+  refine ⟨?_, ⟨⟨by intro _; rfl, by decide⟩, by decide, by intro e h; cases h⟩, by decide, rfl⟩
+  intro m hm
+  simp only [exMsgs, List.mem_cons, List.mem_nil_iff, or_false] at hm
+  rcases hm with rfl | rfl
+  · exact whole_of_stack_decode exPV (pvBytes 1 4) (.struct [.one (.int 1), .one (.int 4)]) 40 (by decide) (by rfl)
+  · exact whole_of_stack_decode exPV (pvBytes 1 2) (.struct [.one (.int 1), .one (.int 2)]) 40 (by decide) (by rfl)
 
 end Kmip
